@@ -69,7 +69,7 @@ def decoy_files(spec):
     out = set()
     for suf in near:
         stem = suf[:suf.rindex(b'.snap')]
-        for d in (suf + b'.json', suf + b'.txt', suf + b'.bak', suf + b'~', stem, stem + b'.snap', stem + b'.snap.json', stem + b'.snap.yaml',
+        for d in (suf + b'.json', suf + b'.txt', suf + b'.bak', suf + b'~', suf + b'.tmp', suf + b'.new', suf + b'.part', suf + b'.lock', suf + b'.orig', suf + b'.swp', stem, stem + b'.snap', stem + b'.snap.json', stem + b'.snap.yaml',
                   stem + b'.snapx', stem + b'.SNAP', stem + b'.json', stem[:-1] + b'0' + stem[-1:] + suf[len(stem):]):
             out.add(d)
     return sorted(d for d in out - expected if b'%' not in d)
